@@ -1,3 +1,108 @@
 import BB.Driver.Util
-/-! Placeholder driver for C09 (replaced when the model is built). -/
-def main : IO Unit := BB.Driver.loop (fun (s : Unit) _ => (s, "unimplemented")) ()
+import BB.Model.Validate
+/-!
+Line-protocol driver of the C09 validator model.
+
+    hash <hexcontent> <token>     declare H(content) = token (replaces the previous declaration)
+    run <size> <token> <code> <strict> ; <ctor> ; <method>
+        ctor   := slice <hex> | reader <j|s> <term> <hex>* | chunks <term> <hex>*
+        term   := eof | e<k>          (e0 = io.ErrUnexpectedEOF, e<k> = status code k)
+        method := iw | ra <off> <len> | bs <max> | cr <off> <max> <reads> | rd <size>* | cc <max> <method> | cs <method>
+      -> res=<open|ok|eof|err:<code>:<tag>> n=<n> pieces=<hex,hex,..|none> verdicts=<t|f>*
+
+The model never computes a hash: `H` is the declared pair, every other input maps to token 0
+(declared tokens are shifted by one).  A `run` whose validator could need an undeclared hash is `bad-op`.
+-/
+open BB.Driver BB.Validate
+
+structure S where
+  decl : Option (List Nat × Nat) := none
+
+def natOfBytes (bs : List Nat) : Nat := bs.foldl (fun a b => a * 256 + b) 1
+
+def token? (s : String) : Option Nat := (hexBytes? s).map natOfBytes
+
+def splitOn (ws : List String) (sep : String) : List (List String) :=
+  let rec go : List String → List String → List (List String) → List (List String)
+    | [], cur, acc => (cur.reverse :: acc).reverse
+    | w :: rest, cur, acc => if w == sep then go rest [] (cur.reverse :: acc) else go rest (w :: cur) acc
+  go ws [] []
+
+def term? (s : String) : Option Term :=
+  if s == "eof" then some .eof
+  else match s.toList with
+    | 'e' :: ds => (nat? (String.ofList ds)).map Term.err
+    | _ => none
+
+def ctor? : List String → Option Ctor
+  | ["slice", h] => (hexBytes? h).map Ctor.slice
+  | "reader" :: j :: t :: items => do
+    let joined ← if j == "j" then some true else if j == "s" then some false else none
+    let term ← term? t
+    let items ← items.mapM hexBytes?
+    pure (.reader { items := items, term := term, joined := joined })
+  | "chunks" :: t :: items => do
+    let term ← term? t
+    let items ← items.mapM hexBytes?
+    pure (.chunks { chunks := items, term := term })
+  | _ => none
+
+def method? : List String → Option Method
+  | ["iw"] => some .intoWriter
+  | ["ra", o, l] => do pure (.readAt (← int? o) (← nat? l))
+  | ["bs", m] => do pure (.toByteSlice (← nat? m))
+  | ["cr", o, m, k] => do pure (.toChunkReader (← int? o) (← nat? m) (← nat? k))
+  | "rd" :: sizes => (allNats? sizes).map Method.toReader
+  | "cc" :: m :: rest => do pure (.cloneCopy (← nat? m) (← method? rest))
+  | "cs" :: rest => do pure (.cloneStream (← method? rest))
+  | _ => none
+
+def errTag : Err → String
+  | .src 0 => "ueof"
+  | .src _ => "src"
+  | .tooBig => "toobig"
+  | .sizeMismatch => "size"
+  | .hashMismatch => "hash"
+  | .truncated => "other"
+  | .negOff => "negoff"
+  | .offBeyond => "offbeyond"
+  | .tooLarge => "toolarge"
+  | .stuck => "stuck"
+
+def showRes (c : Cfg) : Option Res → String
+  | none => "open"
+  | some .ok => "ok"
+  | some .eof => "eof"
+  | some (.err e) => s!"err:{e.code c}:{errTag e}"
+
+def showObs (c : Cfg) (o : Obs) : String :=
+  let ps := if o.pieces.isEmpty then "none" else ",".intercalate (o.pieces.map bytesHex)
+  let vs := String.ofList (o.verdicts.map fun b => if b then 't' else 'f')
+  s!"res={showRes c o.res} n={o.n} pieces={ps} verdicts={vs}"
+
+def step (s : S) (line : String) : S × String :=
+  match words line with
+  | ["hash", content, tok] =>
+    match hexBytes? content, token? tok with
+    | some bs, some t => ({ decl := some (bs, t) }, "ok")
+    | _, _ => (s, "bad-op")
+  | "run" :: size :: tok :: code :: strict :: ";" :: rest =>
+    match nat? size, token? tok, nat? code, nat? strict, splitOn rest ";" with
+    | some size, some h, some code, some strict, [cw, mw] =>
+      match ctor? cw, method? mw with
+      | some ct, some m =>
+        let content := ct.content
+        let declared : Bool := content.length < size ||
+          (match s.decl with | some (bs, _) => bs == content.take size | none => false)
+        if !declared || strict > 1 then (s, "bad-op") else
+        let H : List Nat → Nat := fun bs =>
+          match s.decl with
+          | some (k, t) => if bs == k then t else 0
+          | none => 0
+        let c : Cfg := { H := H, size := size, h := h, code := code, strict := strict == 1, fuel := 1000000 }
+        (s, showObs c (run c ct m))
+      | _, _ => (s, "bad-op")
+    | _, _, _, _, _ => (s, "bad-op")
+  | _ => (s, "bad-op")
+
+def main : IO Unit := loop step {}
